@@ -3,7 +3,7 @@ import vlib, parts_pipeline as pp, parts_detach, common
 
 PID = 'C17'
 # for the bridge chains every deviation of values / terminal is a C17 matter
-BRIDGE_PROPS = {'values': ['C17'], 'timing': ['C17'], 'grammar': ['C17'], 'late': ['C17'], 'closed': ['C17'], 'panic': ['C17'], 'hang': ['C17']}
+BRIDGE_PROPS = {'resub-values': ['C17'], 'resub-closed': ['C17'], 'resub-grammar': ['C17'], 'resub-late': ['C17'], 'values': ['C17'], 'timing': ['C17'], 'grammar': ['C17'], 'late': ['C17'], 'closed': ['C17'], 'panic': ['C17'], 'hang': ['C17']}
 
 
 def main(argv):
@@ -11,6 +11,9 @@ def main(argv):
     vlib.build_harness()
     th = rep.tier == 'thorough'
     pp.run(rep, PID, [pp.gen_cfg('bridges', ChainSetName='"bridges"', MaxSteps=5 if th else 4, MaxIllegal=1)], class_props=BRIDGE_PROPS)
+    # the same bridge pipeline subscribed a second time starts from an empty slice / map (MaxSubs = 2); a source that ends with Error(nil)
+    pp.run(rep, PID, [pp.gen_cfg('bridges-resub', ChainSetName='"bridges"', MaxSteps=5 if th else 4, MaxSubs=2)], modes='ctl-unsafe', class_props=BRIDGE_PROPS)
+    pp.run(rep, PID, [pp.gen_cfg('bridges-nil-error', ChainSetName='"bridges"', MaxSteps=4 if th else 3, NilErr='TRUE')], modes='ctl-unsafe,sync', class_props=BRIDGE_PROPS)
     parts_detach.model_part(rep)
     parts_detach.trace_part(rep, PID, 800 if th else 400, [rep.seed * 100 + i for i in range(6 if th else 1)])
     rep.cov['rule'] = ('(a) TLC enumerates Pipeline.tla behaviours for ToSlice, ToMap (4 flavours), Materialize, Materialize|Dematerialize and op|Materialize|Dematerialize (identity on any stream, '
